@@ -330,16 +330,20 @@ func ruleSlotsOrder(c *Ctx) {
 	if loop == nil {
 		anchorFail("ProcessSlots: loop not found")
 	}
-	// guard before loop: `if currentSlot >= slot { return err }`
+	// guard before the loop: the target is refused exactly when the loop would not run (`current >= target`), in
+	// any spelling: same cut as the loop condition, refusal on the side where the condition is false
 	guard := false
-	for _, st := range fd.Body.List {
-		if st == ast.Stmt(loop) {
-			break
-		}
-		if ifs, ok := st.(*ast.IfStmt); ok {
-			if be, ok := ast.Unparen(ifs.Cond).(*ast.BinaryExpr); ok && be.Op == token.GEQ && endsInErrorReturn(info, ifs.Body, nil, fd) {
-				if strings.Contains(strings.ToLower(types.ExprString(be.Y)), "slot") {
-					guard = true
+	if lc, lp, lop := condCutOf(info, loop.Cond, nil); lc != "" {
+		contSide := cutSide(lp, lop)
+		for _, st := range cmpsIn(pk, fd, "common.ProcessSlots", nil, nil, nil, nil) {
+			if st.pos >= loop.Pos() || st.rop == 0 {
+				continue
+			}
+			for _, q := range []Poly{st.p, st.pr} {
+				if canonCut(q, st.op) == lc {
+					if rs := cutSide(q, st.rop); rs != "" && rs != contSide {
+						guard = true
+					}
 				}
 			}
 		}
@@ -409,19 +413,46 @@ func ruleSlotsOrder(c *Ctx) {
 			continue
 		}
 		cn := condName(l[0].call)
-		// the governing condition must be the epoch-end flag: a variable defined as SlotToEpoch(s+1) != SlotToEpoch(s)
+		// the governing condition must be the epoch-end flag: SlotToEpoch(s+1) != SlotToEpoch(s), tested directly or
+		// through a variable defined as that
 		okCond := false
+		isEpochEnd := func(e ast.Expr) bool {
+			e = ast.Unparen(e)
+			neg := false
+			for {
+				u, ok := e.(*ast.UnaryExpr)
+				if !ok || u.Op != token.NOT {
+					break
+				}
+				neg = !neg
+				e = ast.Unparen(u.X)
+			}
+			be, ok := e.(*ast.BinaryExpr)
+			if !ok {
+				return false
+			}
+			op := be.Op
+			if neg {
+				op = negOp[op]
+			}
+			return op == token.NEQ && strings.Contains(types.ExprString(be.X), "SlotToEpoch") && strings.Contains(types.ExprString(be.Y), "SlotToEpoch")
+		}
 		ast.Inspect(loop.Body, func(m ast.Node) bool {
 			if as, ok := m.(*ast.AssignStmt); ok && len(as.Lhs) == 1 && len(as.Rhs) == 1 {
-				if id, ok := as.Lhs[0].(*ast.Ident); ok && id.Name == cn {
-					if be, ok := ast.Unparen(as.Rhs[0]).(*ast.BinaryExpr); ok && be.Op == token.NEQ &&
-						strings.Contains(types.ExprString(be.X), "SlotToEpoch") && strings.Contains(types.ExprString(be.Y), "SlotToEpoch") {
-						okCond = true
-					}
+				if id, ok := as.Lhs[0].(*ast.Ident); ok && id.Name == cn && isEpochEnd(as.Rhs[0]) {
+					okCond = true
 				}
 			}
 			return true
 		})
+		if cn == "" {
+			lparents := parentMap(loop.Body)
+			for p := lparents[ast.Node(l[0].call)]; p != nil; p = lparents[p] {
+				if ifs, ok := p.(*ast.IfStmt); ok && isEpochEnd(ifs.Cond) && mentionsNode(ifs.Body, l[0].call) {
+					cn, okCond = "SlotToEpoch(slot+1) != SlotToEpoch(slot)", true
+				}
+			}
+		}
 		if cn == "" || !okCond {
 			c.bad(key, l[0].call.Pos(), "%s is not governed by the epoch-end flag (SlotToEpoch(slot+1) != SlotToEpoch(slot))", n)
 		} else {
@@ -517,47 +548,69 @@ func ruleSlotsOrder(c *Ctx) {
 			c.ok("PostSlotTransition.signature", vs[0].call.Pos(), "verified before ProcessBlock when validateResult; failure returns an error")
 		}
 	}
-	// state root comparison after ProcessBlock: `validateResult && benv.StateRoot != state.HashTreeRoot(...)` -> error
+	// state root comparison after ProcessBlock: block.StateRoot != hash_tree_root(state) => error, when validateResult
 	found := false
-	ast.Inspect(fd.Body, func(m ast.Node) bool {
-		ifs, ok := m.(*ast.IfStmt)
-		if !ok {
-			return true
-		}
-		hasNeq, hasHTR, hasFlag := false, false, false
-		ast.Inspect(ifs.Cond, func(k ast.Node) bool {
-			switch x := k.(type) {
-			case *ast.BinaryExpr:
-				if x.Op == token.NEQ && (strings.Contains(types.ExprString(x.X), "StateRoot") || strings.Contains(types.ExprString(x.Y), "StateRoot")) {
-					hasNeq = true
+	{
+		defs := singleDefs(info, fd.Body)
+		parents := parentMap(fd.Body)
+		for _, st := range cmpsIn(pk, fd, "common.PostSlotTransition", nil, nil, nil, nil) {
+			var be *ast.BinaryExpr
+			ast.Inspect(fd.Body, func(k ast.Node) bool {
+				if b, ok := k.(*ast.BinaryExpr); ok && b.Pos() == st.pos && (b.Op == token.NEQ || b.Op == token.EQL) {
+					be = b
 				}
-			case *ast.CallExpr:
-				if sel, ok := x.Fun.(*ast.SelectorExpr); ok && sel.Sel.Name == "HashTreeRoot" {
-					hasHTR = true
-				}
-			case *ast.Ident:
-				if x.Name == "validateResult" {
-					hasFlag = true
-				}
+				return be == nil
+			})
+			if be == nil {
+				continue
 			}
-			return true
-		})
-		if hasNeq && hasHTR {
+			isHTR := func(e ast.Expr) bool {
+				e = resolveLocal(info, e, defs, 3)
+				call, ok := ast.Unparen(e).(*ast.CallExpr)
+				if !ok {
+					return false
+				}
+				sel, ok := call.Fun.(*ast.SelectorExpr)
+				return ok && sel.Sel.Name == "HashTreeRoot"
+			}
+			isDeclared := func(e ast.Expr) bool { return strings.Contains(types.ExprString(resolveLocal(info, e, defs, 3)), "StateRoot") }
+			if !(isHTR(be.X) && isDeclared(be.Y)) && !(isHTR(be.Y) && isDeclared(be.X)) {
+				continue
+			}
 			found = true
 			key := "PostSlotTransition.state-root"
+			hasFlag := false
+			for p := parents[ast.Node(be)]; p != nil; p = parents[p] {
+				if ifs, ok := p.(*ast.IfStmt); ok && (mentionsNode(ifs.Cond, be) || mentionsNode(ifs.Body, be)) {
+					ast.Inspect(ifs.Cond, func(k ast.Node) bool {
+						if id, ok := k.(*ast.Ident); ok && id.Name == "validateResult" {
+							hasFlag = true
+						}
+						return true
+					})
+				}
+			}
+			// where the root itself is computed (it may be a local defined before the test)
+			at := be.Pos()
+			for _, side := range []ast.Expr{be.X, be.Y} {
+				if isHTR(side) {
+					if p := resolveLocal(info, side, defs, 3).Pos(); p.IsValid() && p < at {
+						at = p
+					}
+				}
+			}
 			switch {
-			case len(pb) == 1 && ifs.Pos() < pb[0].call.Pos():
-				c.bad(key, ifs.Pos(), "state root is compared before the block is processed")
-			case !endsInErrorReturn(info, ifs.Body, nil, fd):
-				c.bad(key, ifs.Pos(), "a state-root mismatch does not return an error")
+			case len(pb) == 1 && at < pb[0].call.Pos():
+				c.bad(key, at, "state root is compared before the block is processed")
+			case st.rop != token.NEQ:
+				c.bad(key, at, "a state-root mismatch does not return an error")
 			case !hasFlag:
-				c.bad(key, ifs.Pos(), "state-root comparison is not governed by validateResult")
+				c.bad(key, at, "state-root comparison is not governed by validateResult")
 			default:
-				c.ok(key, ifs.Pos(), "block.StateRoot != state root after ProcessBlock => error")
+				c.ok(key, at, "block.StateRoot != state root after ProcessBlock => error")
 			}
 		}
-		return true
-	})
+	}
 	if !found {
 		c.bad("PostSlotTransition.state-root", fd.Pos(), "no comparison of the block's declared state root with the post-state root")
 	}
